@@ -76,7 +76,7 @@ prop('C06', ['H1', 'H4', 'H2', 'H3'],
      'bindings map to the right relation and strictness (H3).',
      ['equality semantics across construction routes'])
 
-prop('C07', ['P1', 'P2cxx', 'P2py', 'P3', 'P4', 'W1', 'H3', 'K3', 'M7'],
+prop('C07', ['P1', 'P2cxx', 'P2py', 'P3', 'P4', 'W1', 'H3', 'F12', 'F13', 'K3', 'M7'],
      'Prefix matching: per kind, the attributes compared by IsPrefix, FlattenUpTo, the broadcast '
      'walker and prefix_errors equal the reference table of the property statement (P1); '
      'structural mismatch raises ValueError only, prefix_errors constructs only ValueError, sorts '
@@ -84,26 +84,30 @@ prop('C07', ['P1', 'P2cxx', 'P2py', 'P3', 'P4', 'W1', 'H3', 'K3', 'M7'],
      'exactly "some leaf of the prefix meets a non-leaf" (P3); dict children are paired by key, '
      'never by position (P4); the kind arms and key pipeline are those of flatten (K3, M7); the re-ordering '
      'branch of IsPrefix does not address the original node array with positions of the permuted '
-     'working copy (W1); <, <=, >, >=, is_suffix are wired as converses (H3).',
+     'working copy (W1); <, <=, >, >=, is_suffix are wired as converses (H3), the treespec_is_prefix '
+     '/ treespec_is_suffix wrappers call the method of their name (F12); broadcast_prefix repeats '
+     'each prefix leaf once per leaf of the matching subtree (F13).',
      ['exactness over all pairs', 'offset arithmetic of the re-ordering branch'])
 
-prop('C08', ['I3', 'M5', 'M5b', 'M6', 'F9', 'T6', 'K1', 'K3', 'M7', 'M1'],
+prop('C08', ['I3', 'M5', 'M5b', 'M6', 'F9', 'F12', 'T6', 'K1', 'K3', 'M7', 'M1'],
      'Inspection / constructors: entry(i)/child(i) range test and normalisation dominate all uses '
      'of the index (I3); every new treespec gets none_is_leaf and namespace from its source(s) and '
      'passes the sanity check before it escapes (M5, 14 creation sites); a treespec derived from '
      'two treespecs merges both namespaces (M5b); children() and child() '
      'slice with the same expressions (M6); each treespec_<kind> builds the container its name '
-     'says (F9); the Python predicates use the engine\'s formulas (T6); K1; the collection '
+     'says (F9); every treespec_<method>() wrapper calls that method with its arguments in the '
+     'engine\'s order (F12); the Python predicates use the engine\'s formulas (T6); K1; the collection '
      'constructor enumerates children, keys and metadata exactly like flatten (K3, M7, M1).',
      ['count identities', 'transform/compose algebra', 'repr text'])
 
-prop('C09', ['M4', 'M5b', 'P1', 'P4', 'K4', 'F1', 'F2', 'F11', 'M2'],
+prop('C09', ['M4', 'M5b', 'P1', 'P4', 'K4', 'F1', 'F2', 'F11', 'F13', 'M2'],
      'Broadcasting, structural part: the merge walker copies every payload field of a node (M4); '
      'the result namespace comes from both operands (M5b); '
      'its kind x kind compatibility equals the prefix matchers\' (P1) and dict children are paired '
      'by key (P4); it walks backwards with '
      'descending loops and one final reverse (K4); the Python layer forwards options and uses the '
-     'map normal form (F1, F2); n-ary broadcasting is two unconditional pairwise passes (F11); '
+     'map normal form (F1, F2); prefix broadcasting repeats each leaf once per leaf of the '
+     'matching subtree (F13); n-ary broadcasting is two unconditional pairwise passes (F11); '
      'broadcast trees are rebuilt by MakeNode (M2).',
      ['least upper bound', 'symmetry', 'idempotence'])
 
